@@ -1552,4 +1552,73 @@ theorem hRun_spec (W : Writes κ ι π ν φ) (hW : Disciplined W) (ops : List (
 
 end Proc
 
+section CoderState
+variable {π ν : Type}
+
+theorem cRun_all (x : CState × Heap π ν) (acts : List CAct) :
+    (cRun x acts).1.descAll = x.1.descAll ∧ (cRun x acts).1.linkAll = x.1.linkAll := by
+  induction acts generalizing x with
+  | nil => exact ⟨rfl, rfl⟩
+  | cons a as ih =>
+    obtain ⟨h1, h2⟩ := ih (cStep x a)
+    cases a <;> exact ⟨h1, h2⟩
+
+theorem lst_write_frame {h : Heap π ν} {x : Ref} {is0 is' : List Item} (hx : h.lookup x = some (.lst is0)) :
+    (∀ r, r ≠ x → getList ((x, HObj.lst is') :: h) r = getList h r) ∧
+    (∀ r, r ≠ x → getLinks ((x, HObj.lst is') :: h) r = getLinks h r) := by
+  have hl : ∀ y, y ≠ x → look ((x, HObj.lst is') :: h) y = look h y := fun y hy => look_of_view (view_write_ne h x y _ hy)
+  have hd : ∀ y, getDesc ((x, HObj.lst is') :: h) y = getDesc h y := by
+    intro y
+    by_cases hy : y = x
+    · subst hy
+      unfold getDesc
+      rw [look_of_lookup_lst hx, look_of_lookup_lst (by simp : ((y, HObj.lst is') :: h).lookup y = some (.lst is'))]
+    · exact getDesc_congr (hl y hy)
+  refine ⟨?_, fun r hr => getLinks_congr (hl r hr)⟩
+  intro r hr
+  unfold getList
+  rw [getItems_congr (hl r hr)]
+  apply List.map_congr_left
+  intro it _
+  cases it with
+  | own d => rfl
+  | ref y => exact hd y
+
+theorem links_write_frame {h : Heap π ν} {x : Ref} {l0 l' : List (Nat × Nat)} (hx : h.lookup x = some (.links l0)) :
+    (∀ r, r ≠ x → getList ((x, HObj.links l') :: h) r = getList h r) ∧
+    (∀ r, r ≠ x → getLinks ((x, HObj.links l') :: h) r = getLinks h r) := by
+  have hl : ∀ y, y ≠ x → look ((x, HObj.links l') :: h) y = look h y := fun y hy => look_of_view (view_write_ne h x y _ hy)
+  have hd : ∀ y, getDesc ((x, HObj.links l') :: h) y = getDesc h y := by
+    intro y
+    by_cases hy : y = x
+    · subst hy
+      unfold getDesc
+      rw [look_of_lookup_links hx, look_of_lookup_links (by simp : ((y, HObj.links l') :: h).lookup y = some (.links l'))]
+    · exact getDesc_congr (hl y hy)
+  refine ⟨?_, fun r hr => getLinks_congr (hl r hr)⟩
+  intro r hr
+  unfold getList
+  rw [getItems_congr (hl r hr)]
+  apply List.map_congr_left
+  intro it _
+  cases it with
+  | own d => rfl
+  | ref y => exact hd y
+
+theorem getD_eq {l : List Ref} {i : Nat} (hi : i < l.length) : l.getD i 0 = l[i] := by
+  simp [List.getD, hi]
+
+theorem getD_mem {l : List Ref} {i : Nat} (hi : i < l.length) : l.getD i 0 ∈ l := by
+  rw [getD_eq hi]; exact List.getElem_mem hi
+
+theorem getD_ne_of_nodup {l : List Ref} (hn : l.Nodup) {i j : Nat} (hi : i < l.length) (hj : j < l.length) (hij : i ≠ j) :
+    l.getD j 0 ≠ l.getD i 0 := by
+  rw [getD_eq hi, getD_eq hj]
+  have hp := List.pairwise_iff_getElem.1 hn
+  rcases Nat.lt_or_gt_of_ne hij with h | h
+  · exact fun e => hp i j hi hj h e.symm
+  · exact fun e => hp j i hj hi h e
+
+end CoderState
+
 end Bufr.Heap
